@@ -11,7 +11,7 @@ BLANK = {
     "base": "", "gen": 0, "pk": "", "err": "", "cause": "",
     "caller": 0, "k": 0, "out": "",
     "tk": "", "phase": "", "lines": [],
-    "files": [], "lf": [], "sid": "", "src": 0,
+    "files": [], "lf": [], "sid": "", "src": 0, "t": 0, "dur": 0, "timeoutMs": 0, "strict": True,
 }
 
 MAX_PAYLOAD = 6 * 1024 * 1024 + 100
@@ -53,7 +53,8 @@ def project(raw_events, scenario, bound=None):
     opt = scenario.get("opt", {})
     files = sorted(e["name"] for e in opt.get("ext", []) if e.get("kind", "file") != "dir")
     lf = sorted(opt.get("launchFail", []))
-    out = [dict(BLANK, e="Begin", files=files, lf=lf, sid=scenario.get("id", ""))]
+    out = [dict(BLANK, e="Begin", files=files, lf=lf, sid=scenario.get("id", ""), timeoutMs=opt.get("timeoutMs", 2000),
+                strict=not scenario.get("meta", {}).get("race", False))]
 
     # request id -> invocation ordinal, from what was rendered (the ARN carries ":k<k>")
     reqk = {}
@@ -78,7 +79,7 @@ def project(raw_events, scenario, bound=None):
     pending_lines = None
     for ev in raw_events:
         kind = ev.get("ev")
-        o = dict(BLANK, src=ev.get("seq", 0))
+        o = dict(BLANK, src=ev.get("seq", 0), t=ev.get("t", 0))
         if kind != "Tel" or ev.get("kind") != "ExtensionInit":
             if pending_lines is not None:
                 out.append(pending_lines)
@@ -128,7 +129,7 @@ def project(raw_events, scenario, bound=None):
                      big=ev.get("size", 0) > MAX_PAYLOAD)
         elif kind == "InvokeRet":
             o.update(e="InvokeRet", caller=ev["caller"], k=ev["k"], out=ev.get("err", ""), body=body_label(ev.get("body")),
-                     status=ev.get("status", 0))
+                     status=ev.get("status", 0), dur=ev.get("durMs", 0))
         elif kind == "ProcExit":
             if ev.get("cause") == "kill":
                 continue        # the effect of the Kill request that precedes it
